@@ -206,6 +206,9 @@ class QDepthwiseConv2DBatchnorm(QDepthwiseConv2D):
         keep_dims=keep_dims)
     gamma = self.batchnorm.gamma
     beta = self.batchnorm.beta
+    if beta is None:
+      # center=False: the batch normalization has no offset
+      beta = 0
     moving_mean = self.batchnorm.moving_mean
     moving_variance = self.batchnorm.moving_variance
 
@@ -351,6 +354,9 @@ class QDepthwiseConv2DBatchnorm(QDepthwiseConv2D):
     # get Batchnorm stats
     gamma = self.batchnorm.gamma
     beta = self.batchnorm.beta
+    if beta is None:
+      # center=False: the batch normalization has no offset
+      beta = 0
     moving_mean = self.batchnorm.moving_mean
     moving_variance = self.batchnorm.moving_variance
 
